@@ -505,8 +505,8 @@ func c11Dropped(p *core.Prog, r *core.Report) {
 		r.Check(rm, "C11-R3", fname(f), "removeClosedConn(c)", p.Pos(f.Pos()), "closed connections leave the channel's table", "closed connections are not removed from the channel")
 		// peers for both host:ports
 		keys := map[string]bool{}
-		for _, c := range core.CallsIn(f, "RootPeerList.Get") {
-			keys[desc(core.CallArgs(c)[1])] = true
+		for _, ls := range peerLookups(f) {
+			keys[desc(ls.Key)] = true
 		}
 		var ks []string
 		for k := range keys {
@@ -514,7 +514,13 @@ func c11Dropped(p *core.Prog, r *core.Report) {
 		}
 		sort.Strings(ks)
 		both := len(keys) >= 2
-		r.Check(both && len(core.CallsIn(f, "Peer.connectionCloseStateChange")) >= 2, "C11-R3", fname(f), "both the announced and the dialled peer are told", p.Pos(f.Pos()), "peers looked up by: "+strings.Join(ks, ", "), "only "+strings.Join(ks, ", ")+" is told about the close")
+		told := len(core.CallsIn(f, "Peer.connectionCloseStateChange"))
+		for _, a := range f.AnonFuncs {
+			if len(core.CallsIn(a, "Peer.connectionCloseStateChange")) > 0 {
+				told += len(peerLookups(f)) // the closure is the notifier: once per lookup site
+			}
+		}
+		r.Check(both && told >= 2, "C11-R3", fname(f), "both the announced and the dialled peer are told", p.Pos(f.Pos()), "peers looked up by: "+strings.Join(ks, ", "), "only "+strings.Join(ks, ", ")+" is told about the close")
 	}
 	if f := mustFunc(p, r, "", "Channel", "removeClosedConn"); f != nil {
 		d := p.NewDomain("", "connectionState")
@@ -675,13 +681,9 @@ func c11Relay(p *core.Prog, r *core.Report) {
 	}
 	if f := mustFunc(p, r, "", "relayItems", "Delete"); f != nil {
 		ok := false
-		core.EachInstr(f, func(i ssa.Instruction) {
-			if c, isC := core.IsBuiltin(i, "delete"); isC {
-				if fld := core.LoadedField(c.Call.Args[0]); fld != nil && fld.Name() == "items" {
-					ok = true
-				}
-			}
-		})
+		if itemsF := p.Field("", "relayItems", "items"); itemsF != nil {
+			ok = len(mapDeletes(p, f, itemsF, 2)) > 0
+		}
 		r.Check(ok, "C11-R5", fname(f), "Delete removes the item from the table", p.Pos(f.Pos()), "delete(items, id)", "Delete does not remove the item")
 	}
 }
